@@ -83,7 +83,7 @@ def tie(c, hb, theorems_proved=True):
           "documents": 0, "valid": 0, "invalid": 0, "frag_cases": 0, "frag_documents": 0, "frag_valid": 0, "frag_valid_in_srcDen_real": 0,
           "inexact_documents": 0}
     kinds, notfrag, case_line, cvdef, schema_text = {}, {}, {}, {}, {}
-    front_bad, oracle_bad, valid_bad, inst_bad, minst_bad, witness, strict_bad, e2e_bad = [], [], [], [], [], [], [], []
+    front_bad, oracle_bad, valid_bad, inst_bad, minst_bad, witness, strict_bad, e2e_bad, witness2 = [], [], [], [], [], [], [], [], []
     seen = set()
     for r in rows:
         if r[0] == "-":
@@ -135,6 +135,8 @@ def tie(c, hb, theorems_proved=True):
         is_witness = cid == "cuepinint" and r[0].endswith(' (n "9223372036854775808")')
         if is_witness:
             witness.append((r, m, valid and d["frag"] == "true" and d["valid"] == "true" and d["strict"] == "false" and d["src"] == "false" and d["msrc"] == "false"))
+        if cid == "cuepinconst" and r[0].endswith(" (o)"):
+            witness2.append((r, m, valid and d["frag"] == "true" and d["valid"] == "true" and d["strict"] == "false" and d["src"] == "false" and d["msrc"] == "false"))
         if d["frag"] != "true":
             continue
         st["frag_documents"] += 1
@@ -204,6 +206,12 @@ def tie(c, hb, theorems_proved=True):
             line = "c01-front-cue pinned cuepinint\tFAIL source-valid document outside the IR's int64"
             load_proposed(c)
             c.match_known(line)
+        wok2 = len(witness2) == 1 and all(w[2] for w in witness2)
+        c.oblige("witness of C01_cue_parser_sound_counterexample_required_constant replays on the real front-end ({} unifies with `#R: {kind: \"fixed\"}`: CUE fills the constant in; the text is in FragCue, the real IR marks the member required: not in srcDen)",
+                 wok2, [(w[0][1], w[1]) for w in witness2] or "pinned row missing")
+        if wok2:
+            load_proposed(c)
+            c.match_known("c01-front-cue pinned cuepinconst\tFAIL source-valid document without a member the IR requires")
     c.oblige(STREAM + " is not vacuous (texts compared, err texts, share inside the view)",
              ncases >= 100 and st["front_err_agree"] >= 2 and ncases * 10 >= st["generated"] * 7,
              "texts %d, err %d, refused %d" % (ncases, st["front_err_agree"], nref))
